@@ -177,6 +177,30 @@ impl PV {
         }
     }
 
+    /// What tree_format prints for a leaf holding this value (envelope_summary.rs), for the
+    /// kinds whose summary is defined there without reference to CBOR diagnostic notation.
+    pub fn summary(&self, max_length: usize) -> Option<String> {
+        match self {
+            PV::Str(s) | PV::StrSlice(s) => {
+                let t = if s.len() > max_length { format!("{}\u{2026}", s.chars().take(max_length).collect::<String>()) } else { s.clone() };
+                Some(format!("\"{}\"", t.replace('\n', "\\n")))
+            }
+            PV::U8(n) => Some(n.to_string()),
+            PV::U16(n) => Some(n.to_string()),
+            PV::U32(n) => Some(n.to_string()),
+            PV::U64(n) => Some(n.to_string()),
+            PV::Usize(n) => Some(n.to_string()),
+            PV::I8(n) => Some(n.to_string()),
+            PV::I16(n) => Some(n.to_string()),
+            PV::I32(n) => Some(n.to_string()),
+            PV::I64(n) => Some(n.to_string()),
+            PV::Bool(b) => Some(b.to_string()),
+            PV::Null => Some("null".to_string()),
+            PV::Bytes(b) => Some(format!("Bytes({})", b.len())),
+            _ => None,
+        }
+    }
+
     pub fn kind(&self) -> &'static str {
         match self {
             PV::Str(_) => "String",
